@@ -1168,8 +1168,6 @@ func (p Patch) test(doc *container, op Operation, options *ApplyOptions) error {
 			return nil
 		}
 		return fmt.Errorf("testing value %s failed: %w", path, ErrTestFailed)
-	} else if ov.isNull() {
-		return fmt.Errorf("testing value %s failed: %w", path, ErrTestFailed)
 	}
 
 	if val.equal(op.value()) {
